@@ -371,7 +371,9 @@ func (s *InMemoryStore) FetchTopicConfig(ctx context.Context, topic string) (*me
 		if cfg, ok := s.topicConfigs[topic]; ok {
 			return cloneTopicConfig(cfg), nil
 		}
-		return defaultTopicConfigFromTopic(&entry, int16(len(entry.Partitions))), nil
+		// 0: derive the replication factor from the partitions' replica lists (the
+		// partition count is not a replication factor).
+		return defaultTopicConfigFromTopic(&entry, 0), nil
 	}
 	return nil, ErrUnknownTopic
 }
